@@ -9,6 +9,10 @@ Case (one line of key=value tokens):
         traced_s | traced_a                          traced sync / async function
         m_cache_s m_cache_a m_cache_p m_retry_s m_retry_a m_retry_p m_throttle m_throttle_p m_timeout   (metadata only)
  form=  fn | meth | cls        plain function / bound method `obj.m(...)` / through the class `C.m(obj, ...)`
+        obj                    (sync call decorators) the callable handed to the decorator is a callable *object* – a class instance
+                               with `__call__`, the function's name / docstring, and instance attributes of its own, among them
+                               `_function`, `_loop`, `_executor`, `_timeout` bound to decoys (what haiway's own class-based wrappers,
+                               functools.partial subclasses and user wrappers look like); the model is told `form=fn`
  root=  1: everything happens inside `async with ctx.scope("root", completion=…)`; 0: no scope around
  site=  blocks entered around the call, outermost first: a<v> (async scope "c<i>" with A(v)), w<v> (sync scope), u<v>
         (ctx.updated), joined by '.', or '-'
@@ -137,6 +141,9 @@ def parse(case: str) -> dict:
         d["cancel"] = "0"
     if d["form"] != "meth":
         d["recv"] = "a"
+    d["callobj"] = "0"
+    if d["form"] == "obj":      # a callable object handed to the decorator: everywhere else it is a plain function call
+        d["form"], d["callobj"] = "fn", "1" if d["deco"] in ("asyn", "asyn_call", "asyn_ex", "asyn_loop", "wasync_s", "traced_s") else "x"
     return d
 
 
@@ -393,6 +400,7 @@ def decorate(env: Env, deco: str, fn):
 
 
 IS_ASYNC = {"wasync_a", "traced_a", "m_cache_a", "m_retry_a", "m_throttle", "m_throttle_p", "m_timeout", *DECOS_STACK}
+OBJ_DECOS = ("asyn", "asyn_call", "asyn_ex", "asyn_loop", "wasync_s", "traced_s")
 AWAITED = {"asyn", "asyn_call", "asyn_ex", "asyn_loop", "wasync_s", "wasync_a", "traced_a"}
 
 
@@ -400,9 +408,32 @@ def build(env: Env, d: dict):
     """-> (original function, callable to call, receiver or None)"""
     deco, form = d["deco"], d["form"]
     is_async = deco in IS_ASYNC
-    if form == "fn":
+    if form == "fn" and d["callobj"] != "1":
         fn = env.make_function(is_async, False, "f")
         return fn, decorate(env, deco, fn), None
+    if d["callobj"] == "1":
+        fn = env.make_function(is_async, False, "f")
+
+        def decoy(*_a, **_k):
+            env.bind = "decoy"
+            return None
+
+        class CallableObject:
+            def __init__(self, inner):
+                self.inner = inner
+                # private names of its own – the same ones haiway's wrapper classes use
+                self._function = decoy
+                self._loop = decoy
+                self._executor = decoy
+                self._timeout = decoy
+                for a in ("__name__", "__qualname__", "__doc__", "__module__"):
+                    setattr(self, a, getattr(inner, a))
+
+            def __call__(self, *args, **kwargs):
+                return self.inner(*args, **kwargs)
+
+        co = CallableObject(fn)
+        return co, decorate(env, deco, co), None
     fn = env.make_function(is_async, True, "m")
     def h_init(self, key=0):
         self.key = key
@@ -477,6 +508,7 @@ def run_real(case: str) -> str:
     try:
         d = parse(case)
         assert d["deco"] in DECOS_CALL + DECOS_META and d["form"] in ("fn", "meth", "cls") and num(d["sig"]) < len(SIGS)
+        assert d["callobj"] != "x"
     except Exception:  # noqa: BLE001
         return "bad-case"
     from haiway import ctx
@@ -706,6 +738,7 @@ def model_input(case: str, real_out: str) -> str:
         d = parse(case)
         if d["deco"] in DECOS_META:
             return case
+        case = case.replace("form=obj", "form=fn")    # a callable object is a callable: the model's `Fn` is arbitrary behaviour
         out, bind = direct_reference(d)
     except Exception:  # noqa: BLE001
         return case
@@ -830,6 +863,10 @@ VALS = ["i1", "i2", "i7", "s3", "n", "t", "o"]
 OUTS = ["r:i1", "r:s4", "r:n", "r:t", "r:o", "r:fv", "r:fe", "r:co", "r:xv", "r:xb", "e:V", "e:K", "e:C", "e:B", "e:T", "e:X", "e:I", "e:A"]
 
 
+# keyword names the caller is free to use (they end up in `**kw`) that coincide with parameter names of the machinery
+MACHINERY_NAMES = ["cls", "function", "value", "args", "kwargs", "exception", "label"]
+
+
 def gen_args(rng, sig: int, fit: bool):
     v = lambda: rng.choice(VALS)  # noqa: E731
     if sig == 0:
@@ -839,7 +876,7 @@ def gen_args(rng, sig: int, fit: bool):
         if rng.random() < 0.5:
             kw["k"] = v()
         if rng.random() < 0.4:
-            kw[rng.choice(["z", "q"])] = v()
+            kw[rng.choice(["z", "q"] + MACHINERY_NAMES)] = v()
         if n == 1 and rng.random() < 0.3:
             kw["b"] = v()
         if rng.random() < 0.15:
@@ -854,7 +891,7 @@ def gen_args(rng, sig: int, fit: bool):
             kw["b"] = v()
     elif sig == 3:
         pos = [v() for _ in range(rng.randint(0, 3))]
-        kw = {k: v() for k in rng.sample(["a", "k", "z"], rng.randint(0, 2))}
+        kw = {k: v() for k in rng.sample(["a", "k", "z"] + MACHINERY_NAMES, rng.randint(0, 2))}
     else:
         pos = [v() for _ in range(rng.randint(1, 3))]
         kw = {}
@@ -884,6 +921,8 @@ def gen_case(rng, deco=None) -> str:
     deco = deco or (rng.choice(DECOS_STACK) if rng.random() < 0.04
                     else rng.choice(DECOS_CALL * 4 + [m for m in DECOS_META if m not in DECOS_STACK]))
     form = rng.choice(["fn", "fn", "meth", "meth", "cls"])
+    if deco in OBJ_DECOS and rng.random() < 0.12:
+        form = "obj"
     if deco in DECOS_STACK:
         return f"deco={deco} form=fn doc={rng.choice('110')}"
     if deco in DECOS_META:
@@ -953,6 +992,12 @@ def corpus():
         f"deco=traced_a form=meth {base.replace('out=r:i2', 'out=e:A')}",
         f"deco=wasync_a form=fn {base} cancel=1",
         # the receiver of every call of a sequence: instance, shallow copy of it, instance again; subclass with super()
+        "deco=traced_s form=fn root=1 site=a1 sig=3 pos=i1 kw=cls:i5 out=r:i2",     # a keyword named like the machinery's own parameter
+        "deco=traced_a form=fn root=1 site=- sig=0 pos=i1 kw=cls:i5,k:i2 out=r:i2",
+        f"deco=asyn form=obj {base}",                          # a callable object with private attributes of its own
+        f"deco=asyn_ex form=obj {base} leak=9 rec=4",
+        f"deco=wasync_s form=obj {base}",
+        f"deco=traced_s form=obj {base}",
         f"deco=asyn form=meth {base} recv=a,c,a",
         f"deco=asyn_ex form=meth {base} recv=a,c,c,b",
         f"deco=asyn form=meth {base} recv=s,s,s",
